@@ -12,7 +12,7 @@ from vf.ref import execute as refx
 
 ID = "C07"
 BOUNDS = {
-    "quick": "10 subscription documents x event sequences of length 0..2 over 5 payload shapes x 6 source kinds (async generator, custom iterator with / without aclose, aclose that raises, awaitable-returning resolver, iterable that is not its own iterator) x with / without a never-firing abort signal x with / without a subscription root value x source failure at every position x per-event resolver sync/async x all interleavings of source / pull / resolver gates x early release <=1; 7 creation-failure modes",
+    "quick": "11 subscription documents x event sequences of length 0..2 over 6 payload shapes (incl. a non-null failure next to a sibling that fails later) x 7 source kinds (async generator, custom iterator with / without aclose, aclose that raises, aclose that returns a truthy value, awaitable-returning resolver, iterable that is not its own iterator) x with / without a never-firing abort signal x with / without a subscription root value x source failure at every position x per-event resolver sync/async x all interleavings of source / pull / resolver gates x early release <=1; 7 creation-failure modes",
     "thorough": "event sequences of length 0..4, early release <=2",
 }
 RULE = (
